@@ -295,7 +295,16 @@ func main() {
 			continue
 		}
 		allOK := true
+		runRefuted := false
 		for _, ob := range r.Obs {
+			if ob.Verdict == "refuted" {
+				runRefuted = true
+			}
+		}
+		for _, ob := range r.Obs {
+			if runRefuted && ob.Kind == "reach" && ob.Verdict == "vacuous" {
+				ob.Verdict = "skipped" // the path ended at the refuted assertion
+			}
 			nOb++
 			full := r.Name + " :: " + ob.Name
 			if verbose {
@@ -373,8 +382,16 @@ func main() {
 			contractsProved[r.Ld.config+":"+r.Proved] = true
 		}
 	}
+	seenKF := map[string]bool{}
 	for _, k := range knownHits {
-		fmt.Println(k)
+		key := k
+		if i := strings.Index(k, " ("); i > 0 {
+			key = k[:i]
+		}
+		if !seenKF[key] {
+			seenKF[key] = true
+			fmt.Println(k)
+		}
 	}
 	for _, v := range violations {
 		fmt.Println(v)
